@@ -39,7 +39,7 @@ func init() { mon.Register(c19{}) }
 func (c19) ID() string    { return "C19" }
 func (c19) Level() string { return "exploration" }
 func (c19) Rule() string {
-	return "case idx -> family idx%6 (A complete-or-fail, B injected failure + shape x format sweep, C -e, D -n under strace, E automatic formats, F flags -N/-r/-0/-I); " +
+	return "case idx -> family idx%7 (G = stdout is /dev/full: every write fails, yq must exit non-zero with a message for small and large outputs, eval/eval-all/-n; A complete-or-fail, B injected failure + shape x format sweep, C -e, D -n under strace, E automatic formats, F flags -N/-r/-0/-I); " +
 		"every case is a set of real-binary runs over files generated from w.Rand(idx) (1-3 files x 1-4 documents, tame unique-leaf JSON-compatible YAML). " +
 		"Non-trivial: A = >=2 documents and at least one exit-0 run whose output a reader decoded to the predicted results; " +
 		"B = the injected failure was observed as exit!=0 at a position with at least one other document/file around it, or (sweep) the value has >=1 scalar leaf and >=1 format accepted and >=1 refused it or dropped nothing; " +
@@ -70,7 +70,7 @@ func (c19) Floor(tier string) int {
 	return 300
 }
 
-var c19Families = []string{"A", "B", "C", "D", "E", "F"}
+var c19Families = []string{"A", "B", "C", "D", "E", "F", "G"}
 
 func (p c19) Run(w *mon.Worker, idx int) mon.Result {
 	r := w.Rand(idx)
@@ -91,6 +91,8 @@ func (p c19) Run(w *mon.Worker, idx int) mon.Result {
 		c.familyD()
 	case "E":
 		c.familyE()
+	case "G":
+		c.familyG()
 	default:
 		c.familyF()
 	}
@@ -99,7 +101,7 @@ func (p c19) Run(w *mon.Worker, idx int) mon.Result {
 
 // c19Groups: the sub-oracles; every one of them must contribute conclusive non-trivial cases to a run.
 var c19Groups = []string{"A", "B-inject", "B-sweep", "C-spelled", "C-computed", "C-nullinput", "D-trace", "D-files",
-	"E-ext", "E-unknown", "E-first", "E-single-flag", "E-stdin-or-outputonly", "F-N", "F-r", "F-0", "F-I"}
+	"E-ext", "E-unknown", "E-first", "E-single-flag", "E-stdin-or-outputonly", "F-N", "F-r", "F-0", "F-I", "G-stdout-full"}
 
 // Finish enforces the per-family floor: every family (every sub-oracle of it) must have conclusive non-trivial
 // cases. If one observed nothing (e.g. strace unavailable => all of D-trace inconclusive) an Inconclusive result
